@@ -32,7 +32,7 @@ MANIFEST = {
     "technique": "Lean 4 proof (induction over tree height / prefix-parser law on an executable model) + differential correspondence "
                  "model vs implementation + independent reference builder and encoders in the harness",
 }
-RULE = ("ops merkle/merkle_spec/pmt_build/pmt_verify/block_rt/header_rt; boundary corpus (every n in 1..17 x matched subsets incl. "
+RULE = ("ops merkle/merkle_spec/pmt_build/pmt_verify/block_rt/header_rt/blk_seq (object histories: observers x mutators); boundary corpus (every n in 1..17 x matched subsets incl. "
         "right-edge leaves, every single-position corruption of small proofs, all subsets for n<=6 (thorough: n<=11), blocks of "
         "1..33 transactions across powers of two and odd sizes for BTC and LTC, tampered blocks) + seeded random trees/blocks; "
         "distinct = distinct op line; trivial = nothing matched / correspondence-only malformed blocks")
@@ -138,6 +138,8 @@ def impl(op: str) -> str:
         if k == "block_rt":
             blk = M.limited(NET[a[1]].block.from_bin, bytes.fromhex(a[2]))
             return "ok %s %s %d" % (blk.as_bin().hex(), blk.id(), len(blk.txs))
+        if k == "blk_seq":
+            return blk_seq_impl(unhx(a[1]), a[2].split(","))
         if k == "header_rt":
             f = io.BytesIO(unhx(a[1]))
             blk = BTC.block.parse_as_header(f)
@@ -151,9 +153,98 @@ def impl(op: str) -> str:
     return "bad-op"
 
 
+ATTR = {"version": "version", "prev": "previous_block_hash", "root": "merkle_root", "timestamp": "timestamp",
+        "difficulty": "difficulty", "nonce": "nonce"}
+
+
+def _step_answer(f):
+    try:
+        return f()
+    except M.Hang:
+        raise
+    except Exception as e:  # noqa: BLE001
+        return "err:" + type(e).__name__
+
+
+def blk_seq_impl(hdr: bytes, steps) -> str:
+    """one Block object through a history of calls; one answer per step"""
+    try:
+        blk = BTC.block.parse_as_header(io.BytesIO(hdr))
+    except Exception as e:  # noqa: BLE001
+        return "err " + type(e).__name__
+    out = []
+    for st in steps:
+        p = st.split(":")
+        if p[0] == "id":
+            out.append(_step_answer(lambda: blk.id()))
+        elif p[0] == "hash":
+            out.append(_step_answer(lambda: hx(blk.hash())))
+        elif p[0] == "as_bin":
+            out.append(_step_answer(lambda: hx(blk.as_bin())))
+        elif p[0] == "header":
+            def sh():
+                g = io.BytesIO()
+                blk.stream_header(g)
+                return hx(g.getvalue())
+            out.append(_step_answer(sh))
+        elif p[0] == "as_blockheader":
+            blk = blk.as_blockheader()
+            out.append("-")
+        elif p[0] == "set_nonce":
+            blk.set_nonce(int(p[1]))
+            out.append("-")
+        elif p[0] == "set":
+            setattr(blk, ATTR[p[1]], bytes.fromhex(p[2][1:]) if p[2].startswith("x") else int(p[2]))
+            out.append("-")
+        else:
+            return "bad-op"
+    return "ok " + "|".join(out)
+
+
+def ref_header_now(fields):
+    """the 80 (or, with odd-sized hash fields, other) bytes the protocol assigns to the current fields; None if unrepresentable"""
+    v, p, r, t, d, n = fields
+    if not all(0 <= x < 2 ** 32 for x in (v, t, d, n)):
+        return None
+    return struct.pack("<L", v) + p[:32] + r[:32] + struct.pack("<LLL", t, d, n)
+
+
+def blk_seq_oracle(op_args, out):
+    hdr, steps = unhx(op_args[1]), op_args[2].split(",")
+    if len(hdr) < 80 or not out.startswith("ok "):
+        return None
+    fields = [int.from_bytes(hdr[0:4], "little"), hdr[4:36], hdr[36:68], int.from_bytes(hdr[68:72], "little"),
+              int.from_bytes(hdr[72:76], "little"), int.from_bytes(hdr[76:80], "little")]
+    idx = {"version": 0, "prev": 1, "root": 2, "timestamp": 3, "difficulty": 4, "nonce": 5}
+    answers = out[3:].split("|")
+    if len(answers) != len(steps):
+        return "blk_seq: %d answers for %d steps" % (len(answers), len(steps))
+    for i, (st, ans) in enumerate(zip(steps, answers)):
+        p = st.split(":")
+        if p[0] == "set_nonce":
+            fields[5] = int(p[1])
+        elif p[0] == "set":
+            fields[idx[p[1]]] = bytes.fromhex(p[2][1:]) if p[2].startswith("x") else int(p[2])
+        elif p[0] in ("id", "hash", "header", "as_bin"):
+            now = ref_header_now(fields)
+            if now is None:
+                if not ans.startswith("err:"):
+                    return "step %d (%s): answer although the header fields cannot be streamed" % (i, st)
+                continue
+            want = {"id": dsha(now)[::-1].hex(), "hash": dsha(now).hex(), "header": now.hex(), "as_bin": now.hex()}[p[0]]
+            if ans != want:
+                if p[0] in ("id", "hash"):
+                    return ("step %d (%s): block id/hash is not the double-SHA256 of the header bytes the object streams at "
+                            "that moment (stale after %s)" % (i, st, ",".join(steps[:i])[-60:]))
+                return "step %d (%s): streamed header differs from the wire format of the current fields" % (i, st)
+    return None
+
+
 def oracle(op: str, out: str):
     a = op.split(" ")
     k = a[0]
+    if k == "blk_seq":
+        return blk_seq_oracle(a, out)
     if k == "merkle":
         hs = parse_hashes(a[1])
         if not hs:
@@ -337,9 +428,48 @@ def gen_blocks(ctx, emit):
         emit("block_rt %s %s any" % (coin, (hdr + b"\xfd\x02\x00" + b"".join(txb)).hex()))   # non-canonical count
 
 
+def gen_histories(ctx, emit):
+    """Block objects through sequences of observers and mutators (caches must be transparent)"""
+    rng = ctx.rng
+
+    def hdr():
+        return M.header_bytes(rng.choice([1, 2, 0x20000000]), rng.randbytes(32), rng.randbytes(32), rng.randrange(2 ** 32),
+                              0x1D00FFFF, rng.randrange(2 ** 32))
+    # every observer before and after every mutator
+    muts = ["set_nonce:7", "set_nonce:0", "set_nonce:4294967295", "set:nonce:9", "set:version:3", "set:timestamp:1",
+            "set:difficulty:486604799", "set:prev:x" + "ab" * 32, "set:root:x" + "cd" * 32, "as_blockheader"]
+    for obs in ("id", "hash"):
+        for m in muts:
+            emit("blk_seq %s %s" % (hx(hdr()), ",".join([obs, m, obs, "header", "as_bin"])))
+            emit("blk_seq %s %s" % (hx(hdr()), ",".join([m, obs, m, obs])))
+    emit("blk_seq %s id,hash,id,set_nonce:1,set_nonce:2,id,hash,as_blockheader,id" % hx(hdr()))
+    emit("blk_seq %s set_nonce:4294967296,id,set_nonce:5,id" % hx(hdr()))        # out of range, then back in range
+    emit("blk_seq %s set_nonce:-1,hash,header,set_nonce:5,hash" % hx(hdr()))
+    emit("blk_seq %s id,set:prev:x%s,id,header" % (hx(hdr()), "ab" * 31))           # a 31-byte hash shifts the stream
+    for _ in range(ctx.n(300, 20000)):
+        steps = []
+        for _s in range(rng.randint(2, 10)):
+            r = rng.random()
+            if r < 0.4:
+                steps.append(rng.choice(["id", "hash", "id", "hash", "header", "as_bin"]))
+            elif r < 0.7:
+                steps.append("set_nonce:%d" % rng.choice([0, 1, 2 ** 32 - 1, rng.randrange(2 ** 32), 2 ** 32, -1]))
+            elif r < 0.95:
+                f = rng.choice(["version", "timestamp", "difficulty", "nonce", "prev", "root"])
+                if f in ("prev", "root"):
+                    steps.append("set:%s:x%s" % (f, rng.randbytes(32).hex()))
+                else:
+                    steps.append("set:%s:%d" % (f, rng.choice([0, 1, rng.randrange(2 ** 32), 2 ** 32 - 1])))
+            else:
+                steps.append("as_blockheader")
+        steps.append(rng.choice(["id", "hash"]))
+        emit("blk_seq %s %s" % (hx(hdr()), ",".join(steps)))
+
+
 def gen(ctx, emit):
     rng = ctx.rng
     gen_blocks(ctx, emit)
+    gen_histories(ctx, emit)
 
     def rh():
         return bytes(rng.randrange(256) for _ in range(32))
